@@ -475,13 +475,36 @@ pub enum Numeric {
   FLOAT(f64),
 }
 
+/// Escape the content of a text string literal so that it can be written
+/// between double quotes (RFC 8610 SESC): `"` and `\` are escaped, control
+/// characters are written as `\n`, `\r`, `\t`, `\b`, `\f` or `\uXXXX`.
+pub fn escape_text(text: &str) -> String {
+  let mut escaped = String::with_capacity(text.len());
+  for c in text.chars() {
+    match c {
+      '"' => escaped.push_str("\\\""),
+      '\\' => escaped.push_str("\\\\"),
+      '\n' => escaped.push_str("\\n"),
+      '\r' => escaped.push_str("\\r"),
+      '\t' => escaped.push_str("\\t"),
+      '\u{0008}' => escaped.push_str("\\b"),
+      '\u{000C}' => escaped.push_str("\\f"),
+      c if (c as u32) < 0x20 || c == '\u{007F}' => {
+        escaped.push_str(&format!("\\u{:04x}", c as u32));
+      }
+      c => escaped.push(c),
+    }
+  }
+  escaped
+}
+
 impl fmt::Display for Value<'_> {
   fn fmt(&self, f: &mut fmt::Formatter) -> fmt::Result {
     match self {
-      Value::TEXT(text) => write!(f, "\"{}\"", text),
+      Value::TEXT(text) => write!(f, "\"{}\"", escape_text(text)),
       Value::INT(i) => write!(f, "{}", i),
       Value::UINT(ui) => write!(f, "{}", ui),
-      Value::FLOAT(float) => write!(f, "{}", float),
+      Value::FLOAT(float) => write!(f, "{:?}", float),
       Value::BYTE(bv) => write!(f, "{}", bv),
     }
   }
